@@ -142,6 +142,38 @@ def check_file(IndxIO, ent, common, tmp, st, which=None):
         st["cuts"] += 1
 
 
+def check_foreign_cuts(IndxIO, ent, common, tmp, st):
+    """Every strict prefix of documented files in EVERY word-size combination (the library writes 4-byte row ids only):
+    cuts of files with 1-, 2- and 8-byte row-id words have to be rejected as well.  Small files: every cut; files above
+    2000 bytes: every cut in the header / index / lengths part and around every word-size multiple at the end."""
+    path = os.path.join(tmp, "gc.indx")
+    mx = max([common] + [c for k, _ in ent for c in k])
+    mr = max([0] + [x for _, r in ent for x in r] + [len(r) for _, r in ent])
+    for W in (1, 2, 4, 8):
+        if mx >= 2 ** (8 * W):
+            continue
+        for R in (1, 2, 4, 8):
+            if mr >= 2 ** (8 * R):
+                continue
+            data = spec_indx.encode(ent, common, W=W, R=R)
+            T = len(data)
+            cuts = range(T) if T <= 2000 else sorted(set(range(0, 200)) | set(range(T - 64, T)) | {T // 2, T // 2 + 1})
+            ex = {"entries": [[list(k), r if len(r) <= 12 else r[:6] + ["...%d more" % (len(r) - 6)]] for k, r in ent], "common": common, "W": W, "R": R}
+            for k in cuts:
+                with open(path, "wb") as f:
+                    f.write(data[:k])
+                try:
+                    with open(path, "rb") as f:
+                        r = IndxIO.load(f)
+                    n_loaded = len(r[0])
+                    del r
+                    MON.check("indxio.IndxIO.load/torn-file-rejected", "load returned %d entries from the first %d of %d bytes (index words %d bytes, row-id words %d bytes)"
+                              % (n_loaded, k, T, W, R), None, dict(ex, cut=k, length=T), {"cut": "foreign", "R": R})
+                except Exception:  # noqa
+                    MON.check("indxio.IndxIO.load/torn-file-rejected", True)
+                st["cuts"] += 1
+
+
 def check_foreign(IndxIO, ent, common, tmp, st):
     """Files laid out by an independent writer, in every word-size combination wide enough."""
     path = os.path.join(tmp, "g.indx")
@@ -323,6 +355,8 @@ def work(args):
         for ent, common in foreign_cases(tier):
             if j % nshards == shard and which in (None, "C11"):
                 check_foreign(IndxIO, ent, common, tmp, st)
+            if j % nshards == shard and which in (None, "C12"):
+                check_foreign_cuts(IndxIO, ent, common, tmp, st)
             j += 1
         if shard == 0 and which in (None, "C11"):
             check_large_totals(IndxIO, tmp, st)
